@@ -603,7 +603,25 @@ func (pr *progRender) render() string {
 					pr.pre = append(pr.pre, fmt.Sprintf("bx_%d := box_%s{Items: %s}\n_ = bx_%d // also used outside the directive", sl.Unit, sl.Elem.Suffix(), coll, sl.Unit))
 					coll = fmt.Sprintf("bx_%d.Items", sl.Unit)
 				}
-				parts := []string{pr.wrapz(fe, "nil"), pr.wrapz(coll, "nil")}
+				collArg := ""
+				if sl.PkgVar && !sl.Boxed && !pr.s.Wrap && pr.s.Bare {
+					// a package-level variable (see SliceSpec.PkgVar)
+					typ := "[]" + pr.typ(sl.Elem)
+					if sl.Named {
+						typ = "NL_" + sl.Elem.Suffix()
+					}
+					name := fmt.Sprintf("pc_%s_u%d", pr.s.Name, sl.Unit)
+					pr.decls = append(pr.decls, fmt.Sprintf("var %s %s\n", name, typ))
+					pr.pre = append(pr.pre, name+" = "+coll, "defer func() { "+name+" = nil }()")
+					pr.poison = append(pr.poison, name+" = nil")
+					collArg = name
+				}
+				parts := []string{pr.wrapz(fe, "nil")}
+				if collArg != "" {
+					parts = append(parts, collArg)
+				} else {
+					parts = append(parts, pr.wrapz(coll, "nil"))
+				}
 				if sl.End != nil {
 					parts = append(parts, n.cff+".SliceEnd("+pr.wrap(endExpr(sl.End))+")")
 				}
